@@ -71,6 +71,17 @@ func collectFormulas(p *Prog) map[string][]formulaSite {
 					return true
 				}
 				add(strings.ReplaceAll(types.ExprString(x.Lhs[0]), " ", ""), x.Tok, x.Rhs[0], x.Pos())
+			case *ast.ExprStmt:
+				// arithmetic handed straight to a call: buf writes, setters
+				if call, ok := x.X.(*ast.CallExpr); ok {
+					if fobj := callee(info, call); fobj != nil {
+						for i, a := range call.Args {
+							if hasArith(a) {
+								add(fmt.Sprintf("call:%s#%d", fobj.Name(), i), token.ASSIGN, a, x.Pos())
+							}
+						}
+					}
+				}
 			case *ast.ReturnStmt:
 				for i, r := range x.Results {
 					if hasArith(r) {
@@ -86,7 +97,7 @@ func collectFormulas(p *Prog) map[string][]formulaSite {
 
 func init() {
 	if len(os.Args) > 1 && os.Args[1] == "formulas" {
-		p, err := load(loadOpts{repo: "/repo"})
+		p, err := load(loadOpts{repo: dumpRepo()})
 		if err != nil {
 			fmt.Println(err)
 			os.Exit(2)
